@@ -6,6 +6,7 @@ def table(J):
         "C03": [J("TestC03", checks=(6000, 40000), shards=(2, 16))],
         "C04": [J("TestC04", checks=(6000, 40000), shards=(2, 16))],
         "C05": [J("TestC05", checks=(8000, 60000), shards=(4, 16))],
+        "C06": [J("TestC06", checks=(8000, 60000), shards=(4, 16))],
         "C07": [J("TestC07", checks=(40000, 250000), shards=(4, 16), limit=(600, 2400)), J("TestC07Trunc", shards=(4, 16), limit=(600, 2400), fuzz=("FuzzC07Parse", 240))],
         "C08": [J("TestC08", checks=(40000, 400000), shards=(4, 16), limit=(600, 2400)), J("TestC08Sweep", shards=(4, 16), limit=(600, 2400), fuzz=("FuzzC08", 240))],
         "C09": [J("TestC09", checks=(8000, 60000), shards=(3, 16)), J("TestC09Sweep", shards=(5, 5))],
